@@ -41,7 +41,9 @@ Inductive case :=
     and the points of the one collection that followed. *)
 | CConc (L : N) (sums counts lastv : bool) (offered : list aset) (vals : list Z) (obs : points).
 
-Definition obs_eqb (a b : list (list metric)) : bool := list_eqb (perm_eqb metric_eqb) a b.
+(** Values are compared exactly, except that a required non-finite value (Defs.is_nf: a NaN or an
+    infinity entered the sum / is the last value) only requires a non-finite reported value. *)
+Definition obs_eqb (a b : list (list metric)) : bool := list_eqb (perm_eqb (metric_eqb_gen true)) a b.
 
 Definition flag (b : bool) (code : N) : list N := if b then [] else [code].
 
@@ -59,11 +61,11 @@ Definition check_case (c : case) : list N :=
       let m := model L tmask vs is ev in
       let runs := stream_runs L tmask vs is ev in     (* the required reports, computed once *)
       flag (obs_eqb m obs) V_MISMATCH ++
-      (if runs_ok false runs ev obs && obs_at_most_b L obs then
+      (if runs_ok true runs ev obs && obs_at_most_b L obs then
          if runs_presum_ok runs then []
          else if 1 <=? L then [V_KNOWN 1] else [V_SPECFAIL]
        else [V_SPECFAIL]) ++
-      flag (runs_ok false runs ev m && obs_at_most_b L m) V_MODELSPEC
+      flag (runs_ok true runs ev m && obs_at_most_b L m) V_MODELSPEC
   | CConc L sums counts lastv offered vals obs =>
       flag (order_free_b L sums counts lastv offered vals obs) V_SPECFAIL
   end.
